@@ -128,10 +128,8 @@ def check_equation(res, P, era, f):
             check_equality_helper(res, P, era, g)
         else:
             res.notes.append("%s: the equality predicate %s has no body in the analysed crates (derived ==): not analysed" % (era, short_path(h[1])))
-        def named(items):
-            return {("UNKNOWN:value derived from parameter `%s` in an unrecognised way" % f.local_name(x[1])) if isinstance(x, tuple) else x for x in items}
-        a = named(X.ingredients(P, f, h[2][0]) - {"EMPTY"})
-        b = named(X.ingredients(P, f, h[2][1]) - {"EMPTY"})
+        a = X.resolve_roles(f, X.ingredients(P, f, h[2][0])) - {"EMPTY"}
+        b = X.resolve_roles(f, X.ingredients(P, f, h[2][1])) - {"EMPTY"}
         res.sample({"era": era, "equality": short_path(h[1]), "left": sorted(map(str, a)), "right": sorted(map(str, b))})
         best = None
         for x, y, order in ((a, b, "consumed == produced"), (b, a, "produced == consumed")):
@@ -381,27 +379,60 @@ def zero_fee_only_for_redeem(P, f, l):
             s0 = X.strip_refs(fc.l)
             if fc.op == "Eq" and fc.r[0] == "const" and int(fc.r[1]) == 1 and s0[0] == "local" and f.local_ty(s0[1]) == "bool":
                 flags.append(s0[1])
+        # `inputs.iter().all(|i| is_redeem(i))` used directly as the condition
+        all_ok = False
+        for fc in guards.facts_at(f, zb, kill=False):
+            u = X.unwrap_chain(fc.l)
+            if fc.op == "Eq" and fc.r[0] == "const" and int(fc.r[1]) == 1 and u[0] == "call" and strip_generics(u[1]).endswith("Iterator::all") and len(u[2]) == 2:
+                c = X.unwrap_chain(u[2][1])
+                cf = P.get(c[2]) if c[0] == "agg" and c[1] == "closure" else None
+                if cf is not None and "INPUTS" in X.markers(f, u[2][0]):
+                    if any(P.get(t.get("f") or "") is not None and _reads_addrtype(P, P.get(t["f"])) for _, t in cf.calls()) or _reads_addrtype(P, cf):
+                        all_ok = True
+        if all_ok:
+            continue
         if not flags:
             return False, "the zero fee is not guarded by a boolean flag"
         good = False
         for fl in flags:
             cleared_ok = False
-            set_true_in_loop = False
+            bad = None
+
+            def redeem_call(sym):
+                """sym is (a copy of) the result of a call, on a value derived from the inputs, to a function that decides on the address type."""
+                u = X.unwrap_chain(sym)
+                if u[0] != "call":
+                    return False
+                g = P.get(u[1])
+                return g is not None and _reads_addrtype(P, g) and "INPUTS" in X.markers(f, u)
             for bi, si, kind, payload in f.defs().get(fl, []):
                 if kind != "assign":
-                    return False, "flag assigned from a call"
+                    bad = "flag assigned from a call"
+                    break
                 v = f.sym_rvalue(payload[2], 10)
-                if v[0] != "const":
-                    return False, "flag is not a constant-assigned boolean"
-                if int(v[1]) == 1 and f.in_loop(bi):
-                    set_true_in_loop = True
-                if int(v[1]) == 0:
+                if v[0] == "const":
+                    if int(v[1]) == 1:
+                        if f.in_loop(bi):
+                            bad = "the flag is set again inside the loop"
+                            break
+                        continue
+                    # cleared: must be because some input is not a redeem input
                     for fc in guards.facts_at(f, bi, kill=False):
-                        if fc.l[0] == "call" and fc.op == "Eq" and fc.r[0] == "const" and int(fc.r[1]) == 0:
-                            g = P.get(fc.l[1])
-                            if g is not None and _reads_addrtype(P, g) and "INPUTS" in X.markers(f, fc.l) and f.in_loop(bi):
-                                cleared_ok = True
-            if cleared_ok and not set_true_in_loop:
+                        if fc.op == "Eq" and fc.r[0] == "const" and int(fc.r[1]) == 0 and redeem_call(fc.l) and f.in_loop(bi):
+                            cleared_ok = True
+                    continue
+                # flag = flag & is_redeem(input)   (`&=`): monotone, cleared exactly when the input is not a redeem input
+                if v[0] == "bin" and v[1] == "BitAnd":
+                    a, b = X.strip_refs(v[2]), X.strip_refs(v[3])
+                    me = lambda x: x[0] == "local" and len(x) > 1 and x[1] == fl
+                    other = b if me(a) else a if me(b) else None
+                    if other is not None and redeem_call(other):
+                        if f.in_loop(bi):
+                            cleared_ok = True
+                        continue
+                bad = "the flag is computed in a way that is not recognised (%s)" % sym_str(v, 60)
+                break
+            if bad is None and cleared_ok:
                 good = True
         if not good:
             return False, "the flag guarding the zero fee is not cleared for every non-redeem input"
